@@ -1479,4 +1479,13 @@ FUNCTIONS += [
     _deleg('sm_is_satisfied', 'sequence_matcher::is_satisfied', SEQ,
            r'sequence_matcher::is_satisfied\(\)\s*const\s*noexcept', '(handler_is_satisfied : Bool) : Bool',
            [(r'^sequence_handler\.is_satisfied\(\)$', 'handler_is_satisfied')]),
+    _deleg('yield_expr_expr', 'yield_expr<Sig, Expr>::expr', 'include/trompeloeil/coro.hpp',
+           r'expr\(\s*call_params_type_t<Sig>& t\)\s*const\s*override(?=\s*\{\s*return e\(t\))', '(e_of_t : Nat) : Nat',
+           [(r'^e\(t\)$', 'e_of_t')]),
+    _deleg('co_throw_handler_call', 'co_throw_handler_t<H, signature>::operator()', 'include/trompeloeil/coro.hpp',
+           r'promise_value_type operator\(\)\(T& p\)', ': List String', [],
+           pre=[(r'return \(\(void\)h\(p\), trompeloeil::default_return<promise_value_type>\(\)\);', 'H_OF_P(); return DEFAULT_RETURN();')],
+           prologue=['let mut acts : List String := []'], epilogue='return acts',
+           stmt_rules=[(r'^H_OF_P\(\)$', 'acts := acts ++ ["h(p)"]')],
+           ret_rules=[(r'^DEFAULT_RETURN\(\)$', 'acts ++ ["return default_return<promise_value_type>()"]')]),
 ]
